@@ -14,6 +14,7 @@ def combine_regions_clause(ctx):
     """MIMAS.combine_regions: all 2^6 subsets of the six container fields against the documented order"""
     from checks import c08_combine
     c08_combine.run(ctx)
+    c08_combine.run_cli(ctx)
 
 
 def main(tier, seed, t0):
